@@ -18,7 +18,13 @@ type FilterSpec struct {
 	PWhite  [][]byte
 	SBlack  [][2]int
 	SWhite  [][2]int
+	// RHT: ReplaceHashTag is configured. Since /repo e867911 the replay loop also withholds an entry whose
+	// TARGET key (first '{' and first '}' removed) lies in one of the tool's own namespaces (not rendered
+	// by Tokens: the op line carries rht already)
+	RHT bool
 }
+
+var reservedTargetPrefixes = [][]byte{[]byte("redis-gunyu-bisync:"), []byte("redis-gunyu-checkpoint"), []byte("/redis-gunyu")}
 
 var reservedPrefixes = [][]byte{[]byte("redis-gunyu-checkpoint"), []byte("/redis-gunyu")}
 
@@ -69,6 +75,15 @@ func (f *FilterSpec) DbFiltered(db int) bool {
 
 // KeyFiltered: reserved prefix, configured prefix black/white list, slot black/white list.
 func (f *FilterSpec) KeyFiltered(k []byte) bool {
+	if f.RHT {
+		t := bytes.Replace(k, []byte("{"), nil, 1)
+		t = bytes.Replace(t, []byte("}"), nil, 1)
+		for _, p := range reservedTargetPrefixes {
+			if bytes.HasPrefix(t, p) {
+				return true
+			}
+		}
+	}
 	for _, p := range append(append([][]byte{}, reservedPrefixes...), f.PBlack...) {
 		if bytes.HasPrefix(k, p) {
 			return true
